@@ -426,6 +426,11 @@ def analyse_step(interp, ctx, struct):
                           z3.And(len_new == z3.If(chunk != 0, T, mx), Z(dims[1]) == nsub, Z(maxdims[0]) == mx, Z(maxdims[1]) == nsub),
                           line, kind="post", meta=meta)
             nm_ds = dc[0].args[1]
+            # unwritten slots must read as the fill value: the creation property list may not postpone or suppress writing it
+            # (H5D_FILL_TIME_NEVER = 1; the library default IFSET/ALLOC writes the user-defined fill value on allocation)
+            ft = [e for e in s.trace if e.name in ("H5Pset_fill_time",)]
+            bad_ft = [e for e in ft if not (is_conc(e.args[1]) and int(e.args[1]) in (0, 2))]
+            struct(L("newfile.fill_value_is_written"), not bad_ft, "H5Pset_fill_time(%s) on the creation property list of rf_data: slots never written would not read as the missing-data value" % [str(e.args[1]) for e in bad_ft], meta)
             struct(L("newfile.dataset_name"), isinstance(nm_ds, SStr) and nm_ds.text() == "rf_data", "dataset must be named rf_data: %r" % (nm_ds,), meta)
             interp.oblige(s, L("newfile.dataset_type"), z3.And(Z(dc[0].args[2]) == z3.If(wf0["is_complex"] != 0, wf0["complex_dtype_id"], wf0["dtype_id"]),
                                                             Z(dc[0].args[5]) == wf0["dataset_prop"]), line, kind="post", meta=meta)
